@@ -132,6 +132,10 @@ def synth_library(rng, idx):
             lines.append("  declarations:")
             if rng.random() < 0.85:
                 lines.append("  - decl: %s()" % cname)
+                if rng.random() < 0.25:
+                    # statement.yaml / strings.yaml: C_error_pattern names an entry of "patterns"
+                    lines.append("    C_error_pattern: C_check_%s" % rng.choice(["a", "b"]))
+                    feats.append("error_pattern")
                 if rng.random() < 0.5:
                     lines.append("    format:\n      function_suffix: _default")
                     lines.append("  - decl: %s(int flag)" % cname)
@@ -170,6 +174,10 @@ def synth_library(rng, idx):
     for s in structs:
         for f in rng.sample(STRUCT_FUNCS, rng.randint(1, 4)):
             lines.append("- decl: " + f.format(S=s, u=u))
+    if "error_pattern" in feats:
+        lines += ["patterns:", "  C_check_a: |", "    if ({cxx_var} == nullptr) {{",
+                  "        return nullptr; // check a of %s" % lib, "    }}",
+                  "  C_check_b: |", "    // check b of %s" % lib]
     text = "\n".join(lines) + "\n"
     meta = {"lib": lib, "lang": lang, "features": sorted(set(feats)), "prefix": prefix,
             "classes": classes, "structs": structs}
